@@ -91,6 +91,17 @@ def design(pid, tier):
         st += r.distinct
         tr += r.generated
         done.append({"cfg": c, "states": r.distinct, "transitions": r.generated})
+    if pid in ("C04", "C18"):
+        # unbounded histories: the window laws as an inductive invariant (Apalache), and the induction must FAIL for the
+        # weakened rotation
+        ok1, _, o1 = vlib.apalache("Window", ["--cinit=ConstInit", "--init=Init", "--inv=IndInv", "--length=0"])
+        ok2, _, o2 = vlib.apalache("Window", ["--cinit=ConstInit", "--init=IndInit", "--inv=IndInv", "--length=1"])
+        _, bad3, o3 = vlib.apalache("Window", ["--cinit=ConstInitWeak", "--init=IndInit", "--inv=IndInv", "--length=1"])
+        if not (ok1 and ok2 and bad3):
+            raise vlib.Inconclusive("Window.tla: inductive invariant not established (init %s, step %s, weak refuted %s)\n%s" % (
+                ok1, ok2, bad3, (o1 + o2 + o3)[-1500:]))
+        done.append({"module": "Window.tla", "engine": "apalache", "inductive_invariant": "IndInv (any SegmentCount >= 1, any history length)",
+                     "weakened_rotation_refuted": True})
     for c, inv in WEAK.get(pid, []):
         r = vlib.tlc("MCHlsMuxer", c, timeout=600, quiet=True)
         if r.kind != "invariant":
